@@ -26,6 +26,48 @@ def run_tdvp(repo, which, d, steps, dtype='complex', capped=False, normalize=0):
     return l2.explore(repo, body, max_paths=5000)
 
 
+def frame_at_evolutions(sc):
+    """D9: a local evolution exp(-i t P^H H P) y is the projection of the global one only if P is an isometry, i.e. if at the moment of the evolution every core
+    left of the evolved site(s) is a left- and every core right of them a right-orthonormal factor.  The core lists are replayed along the event log.
+    Returns a list of (event, message); only cores whose expression is FULLY KNOWN not to be an isometry count (an untouched input core, U diag(s), ...)."""
+    evs = sc.ctx.events
+    # initial core list of every tensor train that receives stores
+    final, stores = {}, {}
+    for e in evs:
+        if e['kind'] == 'core-store':
+            final[id(e['tt'])] = e['tt']
+            stores.setdefault(id(e['tt']), []).append(e)
+    cur = {}
+    for tid, t in final.items():
+        c = list(t._attrs['cores'])
+        for e in reversed(stores[tid]):
+            if 0 <= e['slot'] < len(c):
+                c[e['slot']] = e['old']
+        cur[tid] = c
+    out = []
+    for n, e in enumerate(evs):
+        if e['kind'] == 'core-store':
+            c = cur[id(e['tt'])]
+            if 0 <= e['slot'] < len(c):
+                c[e['slot']] = e['value']
+            continue
+        if e['kind'] != 'expm_multiply':
+            continue
+        nxt = next((x for x in evs[n + 1:] if x['kind'] == 'core-store'), None)
+        if nxt is None:
+            continue
+        cores = cur[id(nxt['tt'])]
+        sites = sorted({l.resolve().key for g in e['vector'].legs for l in g if l.resolve().kind == 'M' and isinstance(l.resolve().key, int)})
+        if not sites:
+            continue          # (evolution of a bond matrix: its frame is the one of the site evolution before it)
+        lo, hi = sites[0], sites[-1]
+        badc = [k for k in range(len(cores)) if (k < lo and l2rules.core_iso(cores[k], 'LO') is False) or (k > hi and l2rules.core_iso(cores[k], 'RO') is False)]
+        if badc:
+            out.append((e, f'site(s) {sites} are evolved while cores {badc} of the state are not orthonormal factors (left of the site: left-, right of it: right-orthonormal): '
+                           f'the projected operator is then not the projection of H onto the tangent space'))
+    return out
+
+
 def normalisation_currency(res, nz=None):
     """with normalize > 0 every returned state k >= 1 is scaled by a norm that was computed during step k (from the state that step produced), not by one that an
     earlier state was already scaled with.  Returns (violations, undecided): lists of step numbers."""
@@ -94,6 +136,8 @@ def check(repo, tier):
     run.rule('D5', 'trajectory: initial value first (by identity), one distinct new object per step satisfying the class invariant; cores 1..d-1 orthonormal factors after a step')
     run.rule('D6', 'Krylov: Lanczos recurrences in normal form (conjugated bra in alpha, w - alpha v - beta v_prev, symmetric tridiagonal stores, sum_j c_j v_j)')
     run.rule('D8', 'normalize = p > 0: the factor applied to the state of step k is the reciprocal of the p-norm computed from the state produced by step k')
+    run.rule('D9', 'tdvp1site: every local evolution acts in an isometric frame: when site(s) S are evolved, the cores left of S are left- and the cores right of S right-orthonormal factors '
+             '(for an arbitrary initial state this requires an orthonormalisation before the first sweep); refuted only by cores whose expression is fully known')
     run.rule('D7', 'frame: operator and initial state not modified (Layer 1)')
     run.trusted = ['leg semantics of the NumPy/SciPy transfer functions', 'the contraction rule', 'expm_multiply(c*M, v) denotes exp(c M) v']
     orders = (1, 2, 3, 4) if tier == 'thorough' else (1, 2, 3)
@@ -136,6 +180,18 @@ def check(repo, tier):
                 continue
             for t in res[1:]:
                 l2rules.invariant_obligation(run, 'C11', 'D5', repo, sc, t, entry, scen, 'returned state')
+            # D9 isometric frame at every local evolution
+            # (decided for the one-site driver, for which the property claims exactness and conservation; the two-site scheme is exact at maximal ranks in any gauge,
+            # and the hybrid driver is a known finding as a whole)
+            fb = frame_at_evolutions(sc) if which == 'tdvp1site' else []
+            seen_ = set()
+            for e_, why_ in fb:
+                where, cons, f_, ln = l2rules.ev_where(repo, e_, mods)
+                if (where, cons) in seen_:
+                    continue
+                seen_.add((where, cons))
+                run.add(Finding('C11', 'D9', where, cons, f'{scen}: {why_}', f_, ln, {'scenario': scen}))
+            run.oblige('D9', (entry, scen, tuple(ch)), not fb)
             # D8 normalisation
             if nz:
                 nb, nu, nw = normalisation_currency(res, nz)
